@@ -312,6 +312,41 @@ def main():
         return ls, "an owner id recorded that is not the writing thread's own"
     allok &= experiment("AbandonTrace: somebody else's owner id", clines, foreign_owner, {"AdoptOwnId"}, "AbandonTrace", "AbandonTrace.cfg", "asteps_")
 
+    # ---------------------------------------------------------------- PurgeStepTrace (atomic steps of the arena purge schedule)
+    pt = os.path.join(OD, "purge_base_full.ndjson")
+    rc, o = vlib.sh([exe, "--out", pt, "--prog", "arena", "--seed", "11", "--runs", "12", "--strategy", "random", "--rate", "3", "--steps", "1"], timeout=300)
+    plines = [l for l in open(pt) if l.startswith(('{"e":"pstep"', '{"e":"ret"', '{"e":"cfg"', '{"e":"reset"'))]
+    pb = os.path.join(OD, "psteps_base.ndjson"); open(pb, "w").writelines(plines)
+    st, g = tv(pb, "PurgeStepTrace", "PurgeStepTrace.cfg")
+    print("%s  %-46s %s" % ("OK  " if st == "accepted" else "FAIL", "PurgeStepTrace: recorded steps (unchanged tree)", st))
+    allok &= (st == "accepted")
+    RESULTS.append({"experiment": "PurgeStepTrace baseline", "tlc": st, "events": len(plines)})
+
+    def mark_after(ls):
+        i, ev = first(ls, lambda e: e.get("e") == "pstep" and e.get("w") == "pm" and e.get("k") == "or")
+        if i is None: return None
+        j, ev2 = first(ls, lambda e: e.get("e") == "pstep" and e.get("w") == "a" and e.get("f") == "mi_arena_schedule_purge" and e["t"] == ev["t"], i + 1)
+        if j is None: return None
+        ls[i], ls[j] = ls[j], ls[i]
+        return ls, "the marking of the blocks recorded behind the CAS on the arena's expiry"
+    allok &= experiment("PurgeStepTrace: blocks marked after the expiry", plines, mark_after, {"MarkBeforeExpiry"}, "PurgeStepTrace", "PurgeStepTrace.cfg", "psteps_")
+
+    def no_relook(ls):
+        i, ev = first(ls, lambda e: e.get("e") == "pstep" and e.get("w") == "g" and e.get("f") == "mi_arenas_try_purge" and e.get("k") in ("cass", "casw") and e.get("n") == 0 and e.get("ok"))
+        if i is None: return None
+        j, ev2 = first(ls, lambda e: e.get("e") == "pstep" and e.get("w") == "guard" and e.get("k") == "st" and e["t"] == ev["t"], i + 1)
+        if j is None: return None
+        keep = [l for k, l in enumerate(ls) if not (i < k < j and json.loads(l).get("e") == "pstep" and json.loads(l).get("t") == ev["t"] and json.loads(l).get("w") == "a")]
+        return keep, "the second look at the arenas' expiries (after the global expiry was cleared) removed from the log"
+    allok &= experiment("PurgeStepTrace: no second look after the clear", plines, no_relook, {"RelookAfterClear", "WordContinuity"}, "PurgeStepTrace", "PurgeStepTrace.cfg", "psteps_")
+
+    def foreign_store(ls):
+        i, ev = first(ls, lambda e: e.get("e") == "pstep" and e.get("w") == "g" and e.get("k") == "st")
+        if i is None: return None
+        ev["t"] = ev["t"] + 1; ls[i] = dump(ev)
+        return ls, "the store of the global expiry recorded for a thread that does not hold the guard"
+    allok &= experiment("PurgeStepTrace: store without the guard", plines, foreign_store, {"GuardExclusive"}, "PurgeStepTrace", "PurgeStepTrace.cfg", "psteps_")
+
     # ---------------------------------------------------------------- MiPurge: the model finds the three repaired schedule defects
     for variant, cfgname, what in (("forget_pending", "MiPurge_mc.cfg", "Invariant ModelValid is violated"), ("wrong_compare", "MiPurge_mc.cfg", "Invariant ModelValid is violated"),
                                    ("no_rotation", "MiPurge_starve.cfg", "Temporal property EventuallyPurged was violated"), ("fixed", "MiPurge_live.cfg", None)):
